@@ -90,7 +90,7 @@ theorem swapped_table : ∀ p ∈ Api.swappedTable, Api.canonical p.1 = p.2 ∧ 
 theorem runGroup_alias {K : Type} [Scalar K] (grp : String) (dbg : Bool) (a : String) (mask : Nat)
     (args : List K) (ints : List Int) (h : Api.isSwapped a = false) :
     runGroup grp dbg a mask args ints = runCanonical grp dbg (Api.canonical a) mask args ints := by
-  simp [runGroup, h]
+  simp [runGroup, withAliases, h]
 
 theorem swapMask_involutive (m : Nat) (h : m < 4) : Api.swapMask (Api.swapMask m) = m := by
   have : m = 0 ∨ m = 1 ∨ m = 2 ∨ m = 3 := by omega
